@@ -266,7 +266,7 @@ def run(F, rep):
 
     # ------------------------------------------------------------------ W: walks over the component tree are complete
     import recursion as _recw
-    _recw.rule_walkers(F, rep, 'C04.W1', ['validateComponentTree', 'traverseComponentTree', 'buildComponentIdMap', 'findAllVariablesWithEquivalences'], 4, 'validating components, collecting ids and connected variables')
+    _recw.rule_walkers(F, rep, 'C04.W2', ['validateComponentTree', 'traverseComponentTree', 'buildComponentIdMap', 'findAllVariablesWithEquivalences'], 4, 'validating components, collecting ids and connected variables')
 
     # ------------------------------------------------------------------ B: belonging is decided by identity
     rep.rule('C04.B1', 'whether an entity belongs to a container is decided from the entity itself (its owner, or the pointer overload of has*/contains*), not by looking its NAME up in the container: '
